@@ -63,8 +63,8 @@ PROPS = {
     "C06": {
         "title": "A rejected or failed write leaves no trace",
         "modules": ["Props.C06"],
-        "quick": {"profiles": [("reject", 8, 30)], },
-        "thorough": {"profiles": [("reject", 16, 400)], },
+        "quick": {"profiles": [("reject", 8, 30)], "special": ["storage_faults"]},
+        "thorough": {"profiles": [("reject", 16, 400)], "special": ["storage_faults"]},
         "target": has_result("=> E:"),
         "design_ref": "5/C06",
     },
@@ -132,6 +132,16 @@ PROPS = {
         "target": has(("collect ", "one ", "aidx ")),
         "design_ref": "5/C13",
     },
+    "C14": {
+        "title": "Stored values are isolated from caller memory",
+        "modules": ["Props.C14"],
+        "quick": {"special": ["alias_check"]},
+        "thorough": {"special": ["alias_check"]},
+        "rule": "random deep object shapes (nil/empty/non-empty containers, pointer chains, arrays of references) x 4 configurations: store, scribble, "
+                "read, scribble, read; equality with the stored value and disjointness of references; distinct = (seed, case)",
+        "level_note": "proof on the tagged-tree model of cloneValue; trusted: reflect does what the kind-by-kind mirror says (validated by the observed alias relation)",
+        "design_ref": "5/C14",
+    },
     "C15": {
         "title": "Validate and Transform gate every insertion path",
         "modules": ["Props.C15"],
@@ -155,6 +165,26 @@ PROPS = {
         "thorough": {"profiles": [("guard", 16, 250)]},
         "target": has(("reshape", "create ")),
         "design_ref": "5/C17",
+    },
+    "C18": {
+        "title": "On-disk layout is stable and readable by other tools and versions",
+        "modules": ["Props.C18"],
+        "quick": {"profiles": [("layout", 8, 25)], "special": ["golden_corpus"]},
+        "thorough": {"profiles": [("layout", 16, 300)], "special": ["golden_corpus"]},
+        "target": has(("ls", "disk ")),
+        "level_note": "naming rules and layout invariant proved on the model; format constants regenerated from the source and compared with the pinned table; "
+                      "the golden corpus (32 directories written by the pinned release) is translation validation over a finite corpus",
+        "design_ref": "5/C18",
+    },
+    "C19": {
+        "title": "Malformed files and arguments produce errors, never panics or hangs",
+        "modules": ["Props.C19"],
+        "quick": {"profiles": [("args", 8, 40)], "special": ["hostile_dirs"]},
+        "thorough": {"profiles": [("args", 16, 400)], "special": ["hostile_dirs"]},
+        "target": has_result("=> E:") ,
+        "level_note": "search-argument outcomes proved on the model (every triple gives a documented error class or an exact result); "
+                      "for damaged files the decoders are exercised, not modelled: the oracle is 'no panic, no hang, process survives'",
+        "design_ref": "5/C19",
     },
     "C20": {
         "title": "A search result is a snapshot",
